@@ -17,7 +17,7 @@
         5 speech-like with NaN / Inf / huge samples sprinkled in (float entry point; the integer entry
         points get saturated full-scale values instead), 6 wide stereo music-like, 7 every sample huge (1e10)
         or NaN, 8 pure tone, 9 impulses, 11 clean talk spurts separated by digital silence (no noise), 12 clean talker
-        without pauses, 13 tones + noise ramping within 120 ms (c09 also: 10 = signal 1 with pauses of 0.7 s).
+        without pauses, 13 tones + noise ramping within 120 ms, 14 unvoiced (fricative-like noise) talk spurts separated by digital silence (c09 also: 10 = signal 1 with pauses of 0.7 s).
    Each produced packet is decoded, in order, by every decoder of the execution.
 
    ------------------------------------------------------------------ hx_link c09 < script
@@ -70,7 +70,7 @@ static double speechy(sgen_t *s, int fs)
    time alone, so that it is the same whatever the packet duration); bursts = 0: one talker without pauses. */
 static double cleanspeech(sgen_t *s, int fs, int bursts)
 {
-   double t = s->t, f0, env, v = 0; int h;
+   double t = s->t, f0, env, v = 0; int h, noisy = 0;
    if (bursts) {
       /* cycle k lasts on(k) + off(k) ms with on in 250..600, off in 80..200 (fixed pseudo-random table) */
       static const int ON[8] = {420, 250, 600, 330, 510, 280, 450, 370}, OFF[8] = {120, 200, 80, 160, 100, 180, 140, 90};
@@ -79,9 +79,18 @@ static double cleanspeech(sgen_t *s, int fs, int bursts)
       if (k == 8 || ms >= a + ON[k]) { s->phase += 2 * M_PI * 150.0 / fs; if (s->phase > 2 * M_PI * 64) s->phase -= 2 * M_PI * 64; return 0.0; }
       /* 10 ms raised-cosine edges */
       { double x = ms - a, e = 1.0; if (x < 10) e = 0.5 - 0.5 * cos(M_PI * x / 10); else if (x > ON[k] - 10) e = 0.5 - 0.5 * cos(M_PI * (ON[k] - x) / 10);
-        env = e * (0.6 + 0.3 * sin(2 * M_PI * 2.1 * t)); }
+        env = e * (0.6 + 0.3 * sin(2 * M_PI * 2.1 * t));
+        /* bursts = 2 ("unvoiced talk spurts"): odd spurts are fricative-like noise throughout, even ones turn from voiced
+           to noise after 40 % of their length; amplitude-modulated, still exact digital silence in between */
+        if (bursts == 2 && ((k & 1) || x > 0.4 * ON[k])) noisy = 1; }
    } else env = 0.55 + 0.35 * sin(2 * M_PI * 3.7 * t) * sin(2 * M_PI * 0.9 * t + 0.4);
    f0 = 140.0 + 50.0 * sin(2 * M_PI * 1.1 * t) + 20.0 * sin(2 * M_PI * 0.31 * t);
+   if (noisy) {
+      /* first-difference (high-pass tilted) noise, about -17 dBFS at full envelope */
+      double u = hx_unit(&s->r) * 2 - 1, y = 0.75 * u - 0.45 * s->ph2[0]; s->ph2[0] = u;
+      s->phase += 2 * M_PI * f0 / fs; if (s->phase > 2 * M_PI * 64) s->phase -= 2 * M_PI * 64;
+      return 1.0 * env * (0.75 + 0.25 * sin(2 * M_PI * 6.3 * t)) * y;
+   }
    s->phase += 2 * M_PI * f0 / fs;
    if (s->phase > 2 * M_PI * 64) s->phase -= 2 * M_PI * 64;
    for (h = 1; h <= 14; h++) if (h * f0 < 0.45 * fs) v += sin(h * s->phase + 0.3 * h) / h;
@@ -112,6 +121,7 @@ static void gen_sig(sgen_t *s, int kind, float *x, int n, int ch, int fs)
       case 8: s->phase += 2 * M_PI * 1000.0 / fs; if (s->phase > 2 * M_PI) s->phase -= 2 * M_PI; v = 0.5 * sin(s->phase); w = v; break;
       case 9: v = (s->n % (fs / 100) == 3) ? 0.9 : 0.0; w = (s->n % (fs / 80) == 5) ? -0.9 : 0.0; break;
       case 11: case 12: v = cleanspeech(s, fs, kind == 11); w = 0.8 * v; break;
+      case 14: v = cleanspeech(s, fs, 2); w = 0.8 * v; break;
       case 13: {   /* non-stationary within a packet: steady tones plus noise whose level ramps 1 -> 0.15 -> 1 over 120 ms,
                       so that the 20 ms frames of one long packet get different variable-rate sizes */
          double ph = fmod(s->t, 0.12) / 0.06, ramp = 0.15 + 0.85 * (ph < 1 ? 1.0 - ph : ph - 1.0);
